@@ -607,6 +607,91 @@ def part_diffusion(ctx, n2, n3, lean=True):
             ctx.corr(case['part'], case, f'entry {k} = {M[k]}', f'{S[k]}')
 
 
+# ---- documented-discretisation oracle for diffusion_stencil_3d (independent of the transcribed closed forms) ----
+# D = Q A Q^T is recomputed from the three documented rotation matrices; a 2nd-order FD stencil of -div D grad u applied
+# to the quadratics x_a x_b (offsets -1,0,1) gives exactly the second-moment D_ab + D_ba; first moments and the sum vanish.
+# The orientation of the mixed-derivative weights is a convention (direction of rotation / of the axes), so the three mixed
+# moments are compared up to ONE common sign; the pure second moments are compared exactly (-2 D_aa).
+
+def _d3_ref(epsy, epsz, theta, phi, psi):
+    def rz(t):
+        c, s = np.cos(t), np.sin(t)
+        return np.array([[c, s, 0.0], [-s, c, 0.0], [0.0, 0.0, 1.0]])
+    c, s = np.cos(theta), np.sin(theta)
+    rth = np.array([[1.0, 0.0, 0.0], [0.0, c, s], [0.0, -s, c]])
+    Q = rz(psi) @ rth @ rz(phi)
+    return Q @ np.diag([1.0, float(epsy), float(epsz)]) @ Q.T
+
+
+def judge_diff3_doc(case, out):
+    bad = judge_diff(case, out)
+    if bad:
+        return bad
+    tag = ', '.join(f'{k}={v}' for k, v in case.items() if k not in ('part', 'cs'))
+    S = out['S']
+    D = _d3_ref(case['epsy'], case['epsz'], case['theta'], case['phi'], case['psi'])
+    scale = max(1.0, abs(case['epsy']), abs(case['epsz']))
+    tol = 1e-11 * scale
+    off = np.array([-1.0, 0.0, 1.0])
+    X = np.meshgrid(off, off, off, indexing='ij')
+    for a in range(3):
+        m1 = float((S * X[a]).sum())
+        if abs(m1) > tol:
+            return [f'diffusion_stencil_3d({tag}): first moment along axis {a} is {m1}, a 2nd-order FD stencil of '
+                    f'-div D grad u has none']
+        got = float((S * X[a] * X[a]).sum())
+        if abs(got + 2.0 * D[a, a]) > tol:
+            return [f'diffusion_stencil_3d({tag}): stencil applied to x{a}^2 gives {got}, the documented -div(Q A Q^T grad) '
+                    f'gives {-2.0 * D[a, a]}']
+    pairs = [(0, 1), (0, 2), (1, 2)]
+    got = np.array([float((S * X[a] * X[b]).sum()) for a, b in pairs])
+    want = np.array([D[a, b] + D[b, a] for a, b in pairs])
+    if min(float(np.abs(got - want).max()), float(np.abs(got + want).max())) > tol:
+        k = int(np.argmax(np.minimum(np.abs(got - want), np.abs(got + want)))) if float(np.abs(np.abs(got) - np.abs(want)).max()) <= tol \
+            else int(np.abs(np.abs(got) - np.abs(want)).argmax())
+        a, b = pairs[k]
+        return [f'diffusion_stencil_3d({tag}): mixed second moments over (x0x1, x0x2, x1x2) are {got.tolist()}, the documented '
+                f'D = Q A Q^T (recomputed from Rpsi Rtheta Rphi) has D_ab + D_ba = {want.tolist()} (not equal up to one common '
+                f'orientation sign; worst pair x{a}x{b})']
+    # everything outside the 19-point (axis + face-diagonal) pattern and any antisymmetric part would be extra operators
+    if float(np.abs(S - S[::-1, ::-1, ::-1]).max()) > tol:
+        return [f'diffusion_stencil_3d({tag}): stencil is not point-symmetric (a constant-coefficient 2nd-order operator is)']
+    return []
+
+
+def part_diffusion3_doc(ctx, n):
+    rng = np.random.default_rng([int(ctx.seed) & 0xffffffff, 0xC2011])
+    for t in range(n):
+        ang = {}
+        mode = t % 4
+        nz = 0
+        for nm in ('phi', 'theta', 'psi'):
+            if mode == 0 and rng.random() < 0.34:           # some zero angles (one / two angle sub-families)
+                ang[nm] = 0.0
+            elif mode == 1:
+                a, b, r = TRIPLES[int(rng.integers(len(TRIPLES)))]
+                ang[nm] = float(np.arctan2(b, a))
+            elif mode == 2:
+                ang[nm] = float(rng.integers(-8, 9)) * float(np.pi) / 4.0 if rng.random() < 0.5 else float(rng.uniform(-0.2, 0.2))
+            else:
+                ang[nm] = float(rng.uniform(-2 * np.pi, 2 * np.pi))
+            nz += abs(np.sin(ang[nm])) > 1e-9
+        if t % 3 == 0:
+            epsy, epsz = EPS[int(rng.integers(len(EPS)))], EPS[int(rng.integers(len(EPS)))]
+        elif t % 3 == 1:
+            epsy, epsz = float(10 ** rng.uniform(-3, 3)), float(10 ** rng.uniform(-3, 3))
+        else:
+            epsy = epsz = 1.0 if t % 2 else float(rng.uniform(0.01, 2.0))
+        case = {'part': 'diff3doc', 'epsy': epsy, 'epsz': epsz, **ang}
+        out = run_diff(case)
+        ctx.case(key=_key('diff3doc', case), nontrivial=nz >= 2, sample=dict(case) if t % 101 == 0 else None)
+        ctx.feat('diffusion:diff3doc:angles-nonzero=%d' % nz)
+        ctx.feat('diffusion:diff3doc:' + ('isotropic' if epsy == 1.0 and epsz == 1.0 else 'equal-eps' if epsy == epsz else 'aniso'))
+        for b in judge_diff3_doc(case, out):
+            ctx.violation(b, case)
+            return
+
+
 # ---------------------------------------------------------------- elasticity
 
 def run_elas(case):
@@ -1181,6 +1266,7 @@ def run(ctx):
     part_stencil(ctx, cases)
     part_poisson(ctx)
     part_diffusion(ctx, ctx.scale(240, 3000), ctx.scale(80, 1000))
+    part_diffusion3_doc(ctx, ctx.scale(400, 4000))
     part_elas(ctx)
     part_e21(ctx)
     part_e45(ctx)
@@ -1192,6 +1278,7 @@ def search(ctx):
                  + list(full_coupling_cases(rng, False)), lean=False)
     part_poisson(ctx, lean=False, deep=True)
     part_diffusion(ctx, 2000, 600, lean=False)
+    part_diffusion3_doc(ctx, 3000)
     part_elas(ctx, lean=False, deep=True)
     part_e21(ctx, lean=False, deep=True)
     part_e45(ctx, lean=False, deep=True)
@@ -1207,6 +1294,8 @@ def replay(ctx, data):
         bad = judge_poisson(case, run_poisson(case))
     elif part in ('diff2', 'diff3'):
         bad = judge_diff(case, run_diff(case))
+    elif part == 'diff3doc':
+        bad = judge_diff3_doc(case, run_diff(case))
     elif str(part).startswith('e21-'):
         bad = judge_e21(case)[0]
     elif part == 'e45-recon':
